@@ -81,6 +81,9 @@ def merge_by_hyp(obls, prefix, timeout_ms, portfolio=True, cache=True):
     return jobs
 
 
+SHARD = [None]
+
+
 def solve_inline(obls, facts, timeout_ms, done, backend, keep_sat):
     """incremental discharge: one solver per distinct hypothesis list, push/pop per goal. Fills `done`
     {obligation index: result dict} for valid goals (and for refuted ones when keep_sat)."""
@@ -88,6 +91,9 @@ def solve_inline(obls, facts, timeout_ms, done, backend, keep_sat):
     order = []
     for n_, o in enumerate(obls):
         if n_ in done:
+            continue
+        if SHARD[0] is not None and n_ % SHARD[0][1] != SHARD[0][0]:
+            done[n_] = dict(skip=True)          # belongs to another shard of this task
             continue
         key = tuple(h.get_id() if is_z3(h) else id(h) for h in o.hyp)
         if key not in groups:
@@ -131,16 +137,25 @@ class KernelGroup(Group):
         self.bound_text = bound_text
         self.timeout_ms = timeout_ms
         self.inline_timeout_ms = 15000
+        self.shards = {}          # size -> number of worker processes the obligations of that size are spread over
         self.functions = [(contract.rel, contract.func, contract.cls)]
         self.assumptions = tuple(assumptions)
 
     def tasks(self, tier):
         if self.strength == 'P':
             return [('P', None)]
-        return [('B', sz) for sz in self.sizes[tier]]
+        out = []
+        for sz in self.sizes[tier]:
+            ns = self.shards.get(tuple(sz), 1)
+            if ns == 1:
+                out.append(('B', sz))
+            else:
+                out.extend(('B', sz, k, ns) for k in range(ns))
+        return out
 
     def generate(self, task, known=()):
-        mode, size = task
+        mode, size = task[0], task[1]
+        shard = (task[2], task[3]) if len(task) > 2 else None
         c = self.contract
         c.known = tuple(known)
         t = time.time()
@@ -162,6 +177,8 @@ class KernelGroup(Group):
             # what stays open is re-solved with the full definitions, and what is still open after that is
             # exported as a job for the portfolio.
             done = {}
+            obls = None
+            SHARD[0] = shard
             if getattr(c, 'opaque', None) is not None:
                 c.opaque(True)
                 try:
@@ -169,14 +186,18 @@ class KernelGroup(Group):
                     solve_inline(obls, c.extra_facts(), 15000, done, 'z3-5.1(py)+opaque-spec', keep_sat=False)
                 finally:
                     c.opaque(False)
-            obls, stats = harness.function_obligations(c, mode, size)
-            open_ = solve_inline(obls, [], self.inline_timeout_ms, done, 'z3-5.1(py)', keep_sat=True)
+                if len(done) < len(obls):
+                    obls = None        # something stayed open: regenerate with the full definitions
+            if obls is None:
+                obls, stats = harness.function_obligations(c, mode, size)
+                solve_inline(obls, [], self.inline_timeout_ms, done, 'z3-5.1(py)', keep_sat=True)
             jobs = []
             for n_, o in enumerate(obls):
                 nm = "%s:%s#%d" % (prefix, o.name, n_)
-                if n_ in done:
+                if n_ in done and not done[n_].get('skip'):
                     jobs.append(dict(name=nm, subgoals=[nm.split(':', 1)[1]], presolved=done[n_], kinds=[o.kind]))
             rest = [o for n_, o in enumerate(obls) if n_ not in done]
+            SHARD[0] = None
             if rest:
                 more = merge_by_hyp(rest, prefix + '.open', max(self.timeout_ms, 90000))
                 jobs.extend(more)
